@@ -271,12 +271,20 @@ def validate_translator(hs, new_interp, nat):
     return len(jobs)
 
 
-def replay_witness(h, nat, w):
-    """-> (reproduced, detail): runs the REAL natively compiled code on the solver's inputs"""
+def norm_label(l):
+    """panic labels carry the message text, which differs between the MIR assert and the compiled panic"""
+    i = l.find(" panics")
+    return l[:i + 7] if i >= 0 else l
+
+
+def replay_witness(h, nat, w, what=None):
+    """-> (reproduced, detail): runs the REAL natively compiled code on the solver's inputs; reproduced means the
+    real code violates the SAME assertion (any assertion when `what` is None)"""
     vals = {n: int(w[n]) for n, _ in h.ins}
     O = nat_one(h, nat, vals)
     bad = failed_labels(h, vals, O)
-    return bool(bad), {"harness": h.name, "inputs": {k: hex(v) for k, v in vals.items()}, "real": {k: v for k, v in O.items() if not k.startswith("_")},
+    ok = bool(bad) if what is None else (bad is not None and norm_label(what) in [norm_label(b) for b in bad])
+    return ok, {"harness": h.name, "inputs": {k: hex(v) for k, v in vals.items()}, "real": {k: v for k, v in O.items() if not k.startswith("_")},
                        "violated": bad}
 
 
@@ -331,11 +339,11 @@ def main(tier):
         bad = False
         seen = set()
         for v in out.violations:
-            key = "%s/%s" % (name, v["what"])
+            key = getattr(h, "fixed_key", None) or "%s/%s" % (name, v["what"])
             if key in seen:
                 continue
             seen.add(key)
-            ok, detail = replay_witness(h, nat, v["witness"])
+            ok, detail = replay_witness(h, nat, v["witness"], v["what"])
             if not ok:
                 raise Inconclusive("counterexample of %s (%s) does not reproduce on the natively compiled real code: %s" %
                                    (name, v["what"], json.dumps(detail, default=str)[:600]))
